@@ -194,13 +194,13 @@ def run(ctx):
     ctx.build(["c03"])
     mc(ctx)
     q = ctx.quick
-    nshard = 4 if q else 24
-    per = 800 if q else 6000
+    nshard = 8 if q else 24
+    per = 1000 if q else 6000
     jobs = [("c03", ["--mode", "random", "--n", per], "rand%02d.ndjson" % i,
              {"extra_env": {"VERIF_SEED": str(ctx.seed * 1000 + i)}}) for i in range(nshard)]
     jobs.append(("c03", ["--mode", "corpus", "--in", CORPUS], "corpus.ndjson"))
     paths = ctx.record_many(jobs, parallel=4)
-    rs, claim_ok, claim_bad = validate(ctx, paths, parallel=4 if q else 12)
+    rs, claim_ok, claim_bad = validate(ctx, paths, parallel=8 if q else 12)
     decoder_crosscheck(ctx, ctx.__dict__.get("_c03_judged_words", {}))
     # the repository's own expectations, replayed through the specification
     undisputed = [e["cls"] for e in claim_bad if "disputed" not in _corpus_entry(e["cls"])]
